@@ -7,6 +7,7 @@ import (
 	"fmt"
 	"go/types"
 	"math"
+	"regexp"
 	"sort"
 	"strconv"
 	"strings"
@@ -376,6 +377,8 @@ func registerIntrinsics(e *Engine) {
 	reg("vCallLog", func(x *Exec, a []Value) Value { return mkStrSlice(x.calllog) })
 
 	registerLibModels(e)
+	registerStringModels(e)
+	registerRegexpModels(e)
 }
 
 // ---------------------------------------------------------------------------
@@ -668,6 +671,11 @@ func registerLibModels(e *Engine) {
 	always("log.Fatalln", func(x *Exec, a []Value) Value { panic(&pathEnd{"log.Fatalln"}) })
 	always("log.Fatal", func(x *Exec, a []Value) Value { panic(&pathEnd{"log.Fatal"}) })
 
+	always("github.com/Masterminds/sprig/v3.TxtFuncMap", func(x *Exec, a []Value) Value {
+		return &MapVal{M: &MapObj{KeyT: types.Typ[types.String]}}
+	})
+	always("os.Getenv", func(x *Exec, a []Value) Value { return mkStr("") })
+	always("log.New", func(x *Exec, a []Value) Value { return nilPtr })
 	always("reflect.DeepEqual", func(x *Exec, a []Value) Value { return x.deepEqual(a[0], a[1]) })
 
 	// sync primitives: sequential engine
@@ -774,6 +782,94 @@ func registerLibModels(e *Engine) {
 		}
 		return mkBV(64, uint64(n))
 	})
+}
+
+func registerRegexpModels(e *Engine) {
+	compile := func(x *Exec, fn *ssa.Function, a []Value) (Value, bool) {
+		s := a[0].(*StrVal)
+		if !s.IsConcrete() {
+			panic(unsupported("regexp compile of symbolic pattern"))
+		}
+		re, err := regexp.Compile(s.Conc())
+		if err != nil {
+			if strings.HasSuffix(fn.String(), "MustCompile") {
+				x.goPanicf("regexp: Compile(%q): %v", s.Conc(), err)
+			}
+			return TupleVal{nilPtr, x.errorValue(err.Error())}, true
+		}
+		p := mkPtr(&Cell{V: &NativeVal{V: re}})
+		if strings.HasSuffix(fn.String(), "MustCompile") {
+			return p, true
+		}
+		return TupleVal{p, nilIface}, true
+	}
+	e.intrinsics["regexp.MustCompile"] = compile
+	e.intrinsics["regexp.Compile"] = compile
+	reOf := func(x *Exec, v Value) *regexp.Regexp {
+		nv, ok := x.deref(v.(*PtrVal)).Load().(*NativeVal)
+		if !ok {
+			panic(unsupported("regexp receiver is not a native handle"))
+		}
+		return nv.V.(*regexp.Regexp)
+	}
+	cs := func(v Value) (string, bool) {
+		s := v.(*StrVal)
+		if s.IsConcrete() {
+			return s.Conc(), true
+		}
+		return "", false
+	}
+	e.intrinsics["(*regexp.Regexp).MatchString"] = func(x *Exec, fn *ssa.Function, a []Value) (Value, bool) {
+		re := reOf(x, a[0])
+		if s, ok := cs(a[1]); ok {
+			return mkBool(re.MatchString(s)), true
+		}
+		return x.regexMatchSym(re, a[1].(*StrVal)), true
+	}
+	e.intrinsics["(*regexp.Regexp).FindStringSubmatch"] = func(x *Exec, fn *ssa.Function, a []Value) (Value, bool) {
+		re := reOf(x, a[0])
+		s, ok := cs(a[1])
+		if !ok {
+			s = x.concretizeByRegex(re, a[1].(*StrVal))
+		}
+		m := re.FindStringSubmatch(s)
+		if m == nil {
+			return &SliceVal{Nil: true}, true
+		}
+		return mkStrSlice(m), true
+	}
+	e.intrinsics["(*regexp.Regexp).FindStringIndex"] = func(x *Exec, fn *ssa.Function, a []Value) (Value, bool) {
+		re := reOf(x, a[0])
+		s, ok := cs(a[1])
+		if !ok {
+			panic(unsupported("FindStringIndex on symbolic string"))
+		}
+		m := re.FindStringIndex(s)
+		if m == nil {
+			return &SliceVal{Nil: true}, true
+		}
+		return mkSlice([]Value{mkBV(64, uint64(m[0])), mkBV(64, uint64(m[1]))}), true
+	}
+	e.intrinsics["(*regexp.Regexp).ReplaceAllString"] = func(x *Exec, fn *ssa.Function, a []Value) (Value, bool) {
+		re := reOf(x, a[0])
+		s, ok1 := cs(a[1])
+		r, ok2 := cs(a[2])
+		if !ok1 || !ok2 {
+			panic(unsupported("ReplaceAllString on symbolic string"))
+		}
+		return mkStr(re.ReplaceAllString(s, r)), true
+	}
+	e.intrinsics["(*regexp.Regexp).String"] = func(x *Exec, fn *ssa.Function, a []Value) (Value, bool) {
+		return mkStr(reOf(x, a[0]).String()), true
+	}
+	e.intrinsics["(*regexp.Regexp).FindAllString"] = func(x *Exec, fn *ssa.Function, a []Value) (Value, bool) {
+		re := reOf(x, a[0])
+		s, ok := cs(a[1])
+		if !ok {
+			panic(unsupported("FindAllString on symbolic string"))
+		}
+		return mkStrSlice(re.FindAllString(s, cint(x, a[2]))), true
+	}
 }
 
 func (e *Engine) intrinsicsAlias(name string) func(x *Exec, a []Value) Value {
